@@ -52,11 +52,16 @@ class RigidFamily:
     name = "rigid"
     tables = {"A_IB": "A_IB_cache", "A_IB_q": "A_IB_q_cache", "r_OP": "r_OP_cache", "v_P": "v_P_cache", "J_P": "J_P_cache"}
 
-    def __init__(self, rng, pool):
+    def __init__(self, rng, pool, variant="translated"):
+        self.variant = variant
         self.t = [0.0, 0.5, 1.25][:pool]
         qa = np.array([rng.uniform(-1, 1) for _ in range(7)])
         # second value: same orientation, different position (a key that drops the position would collide)
-        self.q = [qa, qa + np.array([0.5, -1.0, 2.0, 0, 0, 0, 0])] + [np.array([rng.uniform(-1, 1) for _ in range(7)]) for _ in range(pool - 2)]
+        # the same orientation with a quaternion of another length (A_IB is the same, its derivative is not), a pure translation, random states
+        qs = qa * np.array([1, 1, 1, 2.0, 2.0, 2.0, 2.0])      # a power of two: the normalised quaternion is bitwise the same
+        qt = qa + np.array([0.5, -1.0, 2.0, 0, 0, 0, 0])
+        first = [qa, qt, qs] if variant == "translated" else [qa, qs, qt]
+        self.q = (first + [np.array([rng.uniform(-1, 1) for _ in range(7)]) for _ in range(pool)])[:pool]
         ua = np.array([rng.uniform(-1, 1) for _ in range(6)])
         self.u = [ua, ua + np.array([1.0, 0, 0, 0, 0, 0])] + [np.array([rng.uniform(-1, 1) for _ in range(6)]) for _ in range(pool - 2)]
         self.b = [np.zeros(3), np.array([0.1, 0.2, -0.3]), np.array([1.0, 0.0, 2.0])][:pool]
@@ -402,12 +407,13 @@ def run(ctx):
     counters = {"calls": 0, "mutations": 0, "behaviours": 0, "lru_order_diff": 0, "cache_content_diff": 0}
     samples = []
     plan = {  # family -> (pool, ops for the replayed graph, ops for the design check)
-        "rigid": (2, 2, 4), "s2s": (2, 3, 5), "s2sf": (2, 3, 4), "mesh": (3, 3, 5), "rod": (2, 3, 5),
+        "rigid": (2, 2, 4), "rigid#scaled": (2, 2, 4), "s2s": (2, 3, 5), "s2sf": (2, 3, 4), "mesh": (3, 3, 5), "rod": (2, 3, 5),
     }
     if ctx.thorough:
-        plan = {"rigid": (2, 3, 5), "s2s": (2, 4, 6), "s2sf": (2, 4, 5), "mesh": (3, 4, 6), "rod": (2, 4, 6)}
-    for famname, (pool, gops, dops) in plan.items():
-        fam = FAMILIES[famname](rng, pool)
+        plan = {"rigid": (3, 3, 5), "s2s": (2, 4, 6), "s2sf": (2, 4, 5), "mesh": (3, 4, 6), "rod": (2, 4, 6)}
+    for famkey, (pool, gops, dops) in plan.items():
+        famname, _, variant = famkey.partition("#")
+        fam = FAMILIES[famname](rng, pool, variant) if variant else FAMILIES[famname](rng, pool)
         with warnings.catch_warnings():
             warnings.simplefilter("ignore")
             fam.make()    # learn the real cache sizes
@@ -436,10 +442,10 @@ def run(ctx):
             traces += 1
         if len(samples) < 4 and walks:
             w = walks[len(walks) // 2]
-            samples.append({"family": famname, "ops": [g.edges[e][2] for e in w[1]]})
+            samples.append({"family": famkey, "ops": [g.edges[e][2] for e in w[1]]})
         states += rg.distinct
         trans += rg.generated
-        ctx.log(f"[C26] {famname}: design {r.distinct} states (depth {r.depth}); graph {rg.distinct} states, {len(g.edges)} transitions, "
+        ctx.log(f"[C26] {famkey}: design {r.distinct} states (depth {r.depth}); graph {rg.distinct} states, {len(g.edges)} transitions, "
                 f"{len(walks)} walks replayed into twin objects")
         # long simulated behaviours
         num, depth = (10, 40) if not ctx.thorough else (60, 60)
